@@ -578,6 +578,55 @@ func runC02(c *Ctx) {
 			b, ok := v.(*ssa.BinOp)
 			return ok && b.Op == token.EQL && (isJoined(b.X) || isJoined(b.Y))
 		}
+		// (0) whatever the form, an accepted path has no ".." element: Join cleans, but a relative destination made of
+		// parent references only ("..", "../..") is a textual prefix of paths that climb further up ("../../x" starts
+		// with "../"), so the prefix test alone is not a containment test for such destinations
+		elementGuard := func(v ssa.Value) bool {
+			if noDots(v) {
+				return true
+			}
+			cl, ok := v.(*ssa.Call)
+			if !ok {
+				return false
+			}
+			g := staticCallee(&cl.Call)
+			if g == nil || g.Blocks == nil || !inPkg(fsPkgRel)(g) {
+				return false
+			}
+			onJoined := false
+			for _, a := range cl.Call.Args {
+				if isJoined(a) {
+					onJoined = true
+				}
+			}
+			if !onJoined {
+				return false
+			}
+			// the predicate compares something with ".." and answers a boolean
+			cmp := false
+			allInstrs(g, func(j ssa.Instruction) {
+				if b, ok := j.(*ssa.BinOp); ok && b.Op == token.EQL {
+					for _, o := range []ssa.Value{b.X, b.Y} {
+						if cs, ok := constString(o); ok && cs == ".." {
+							cmp = true
+						}
+					}
+				}
+			})
+			return cmp
+		}
+		unguarded := ""
+		allInstrs(san, func(in ssa.Instruction) {
+			r, ok := in.(*ssa.Return)
+			if !ok || isErrorExit(san, r) || onBoolSide(r, true, isEq) || relContainment(r) {
+				return
+			}
+			if !onBoolSide(r, false, elementGuard) {
+				unguarded = c.ipos(r)
+			}
+		})
+		c.check(unguarded == "", "X2", fname(san)+"/no-parent-element", c.pos(san.Pos()), "accepted paths have no \"..\" element (or are accepted on their path relative to the destination)",
+			"the accepting return at "+unguarded+" rests on the textual prefix test alone: for a relative destination made of parent references only (\"..\", \"../..\") the joined path of an entry that climbs further up (\"../escaped.txt\" gives \"../../escaped.txt\") still starts with destination + separator — the entry is created outside the destination and no error is returned")
 		// (a) the sanitiser refuses every path with ".." anywhere in it
 		substringForm := true
 		allInstrs(san, func(in ssa.Instruction) {
